@@ -36,6 +36,7 @@ class Scenario:
     schedule: bool = False               # fake servers: seeded random order of pending round trips
     fifo_only: bool = False              # only undelayed, no ttl: pure ordering histories
     exec_timeouts_s: list = field(default_factory=lambda: [None])    # execution timeouts offered to enqueue
+    no_defer: bool = False               # never offer recurring (defer_by) parameters
     script: list | None = None           # directed history: the operations in this order instead of seeded choices
 
 
@@ -110,10 +111,15 @@ async def run_history(loop, sc: Scenario, make=None, projector=None, latency_us=
         kw = {}
         if delay_ms is not None:
             when = now + timedelta(milliseconds=delay_ms)
-            if rng.random() < 0.5:
+            r = rng.random()
+            if r < 0.4:
                 kw["delay"] = DelayProperties(next_execution_time=when)
-            else:
+            elif r < 0.8 or sc.no_defer:
                 kw["delay"] = DelayProperties(delay_until=when)
+            else:
+                # a recurring message that carries the time of its next execution (a retry of a periodic job whose back-off
+                # is longer than the period): the stored time is what counts, not the next point of the period grid
+                kw["delay"] = DelayProperties(defer_by=timedelta(milliseconds=rng.choice([200, 1000])), next_execution_time=when)
         if ttl_ms is not None:
             kw["ttl"] = timedelta(milliseconds=ttl_ms)
         et = rng.choice(sc.exec_timeouts_s)
